@@ -28,6 +28,7 @@ def main(tier):
     r, s = cx.repo, cx.schema
     chk.run("R-BOUNDDIR", R.bounddir, r, s, floor=10, control=lambda: R.control(r))
     chk.run("R-OPERANDS", R.operands, r, s, floor=8)
+    chk.run("R-COMMSYM", R.commsym, r, floor=2)
     chk.run("R-CONSTFOLD", R.constfold, r, floor=30)
     dctl = D.control(r)
     chk.run("R-DISPATCH-FM", D.fm_flow_rule, r, s, floor=30, control=lambda: dctl)
